@@ -324,6 +324,27 @@ def vw_parser(repo, chk):
                             'tokens are filed under the column of their namespace id', f'the column key must be fw_col_mapping[first token of the section]; found {show(kt)[:120]}')
             chk.expect_term(vt, val_ok, 'C16.3c', 'R15', fn.site(s), ast.unparse(s.value)[:160],
                             "tokens after the namespace id, empty ones dropped, joined by '-'", f"the cell must be '-'.join(non-empty tokens after the namespace id); found {show(vt)[:160]}")
+    # ... for every section whose namespace id is in the map: the store is guarded by that membership test and by nothing else
+    for s_ in stores:
+        if not isinstance(s_.targets[0].value, ast.Name):
+            continue
+        g, child = par.get(s_), s_
+        while g is not None and g is not part_loop:
+            if isinstance(g, ast.If):
+                in_body = any(child is x for x in g.body)
+                tt = term_of(fn, g.test, roles)
+                member = [exp(f"{tok}[0] in fwmap"), exp(f"{tok}[0] in fwmap.keys()"), exp(f"fwmap.get({tok}[0]) is not None")]
+                absent = [exp(f"{tok}[0] not in fwmap"), exp(f"not ({tok}[0] in fwmap)"), exp(f"fwmap.get({tok}[0]) is None")]
+                if (in_body and tt in member) or (not in_body and tt in absent):
+                    pass
+                elif isinstance(g.test, ast.Constant) or tt in (('const', False), ('const', True), ('bool', False), ('bool', True)) or (in_body and tt in absent) or (not in_body and tt in member):
+                    chk.bad('C16.3g', 'R14', fn.site(g), ast.unparse(g.test)[:80], 'the tokens of a section must be filed under its column exactly when the namespace id is in the map; here the store is ' +
+                            ('never reached / reached for unmapped ids only' if not (isinstance(g.test, ast.Constant) and g.test.value and in_body) else 'reached for unmapped ids too (KeyError)') + ': every cell of the row is None')
+                else:
+                    chk.unsure('C16.3g', 'R14', fn.site(g), ast.unparse(g.test)[:80], 'the store of the section tokens is guarded by a test other than the membership of the namespace id in the map')
+            child, g = g, par.get(g)
+    if found and not any(o.oid == 'C16.3g' for o in chk.obs):
+        chk.ok('C16.3g', 'R14', fn.site(part_loop), 'if <namespace id> in fw_col_mapping: HASH[...] = ...', 'the tokens are filed for every section whose namespace id is in the map (no other guard)')
     if not found:
         other = [c for c in ast.walk(part_loop) if isinstance(c, ast.Call) and isinstance(c.func, ast.Attribute) and c.func.attr in ('append', 'extend', 'add', 'update', 'setdefault', '__setitem__')]
         if other:
@@ -492,6 +513,7 @@ def namespace_reader(repo, chk):
     ok_ret = float_name is not None and map_name is not None
     n_store = n_paths = 0
     problems = {}
+    seen_arity = set()
     for assume, res in paths:
         if res.unknown is not None:
             chk.unsure('C16.6', 'R15', fn.site(res.unknown), ast.unparse(res.unknown)[:80], 'statement outside the path vocabulary in the per-line body')
@@ -565,6 +587,7 @@ def namespace_reader(repo, chk):
                 else:
                     problems.setdefault('C16.6f', (lp, 'the test that separates two-field from three-field namespace lines changed: lines are unpacked with the wrong arity, raise inside the try and are silently dropped from the id->feature map'))
             continue
+        seen_arity.add(two)
         if two:
             # fixed, non-float type: never added to the float set
             fixed = [tt for tt, is_f32 in type_terms]
@@ -583,6 +606,9 @@ def namespace_reader(repo, chk):
                     problems.setdefault('C16.6c', (st['node'], "a feature whose declared type is 'f32' must be added to the float set"))
             elif added:
                 problems.setdefault('C16.6c', (added[0]['node'], "float_set.add(feature) must be guarded by exactly `type_name == 'f32'`"))
+    if n_store and seen_arity != {True, False} and 'C16.6f' not in problems and not any(o.oid.startswith('C16.6') and o.status == 'inconclusive' for o in chk.obs):
+        problems.setdefault('C16.6f', (lp, 'the per-line body no longer separates two-field (id,feature) from three-field (id,feature,type) lines (the field-count test is gone or constant): one of the two kinds is '
+                                           'unpacked with the wrong arity, raises inside the try and is silently dropped from the id->feature map / the float set'))
     good = {'C16.6a': 'id_feature_map[first field] = second field of the comma-split line', 'C16.6b': 'stored for every accepted line', 'C16.6c': "float set gets the feature iff its declared type is 'f32'",
             'C16.6d': 'two-field lines are typed generic', 'C16.6f': 'two-field lines (id,feature) are read as such, three-field lines carry their type'}
     if n_store == 0 and not problems and not any(o.oid.startswith('C16.6') for o in chk.obs):
